@@ -203,7 +203,7 @@ def h_entries_insert(ctx, lmax=2 ** 60, kmax=2 ** 33):
         st.allocs["K"] = {"size": k, "align": bv(1), "live": True, "origin": "key"}
         st.allocs["D"] = {"size": d, "align": bv(1), "live": True, "origin": "data"}
         covers = {"no-realloc": False, "realloc-once": False, "realloc-3+": False, "exact-fit": False,
-                  "panic-oversize": False, "empty-key": False}
+                  "panic-oversize": kmax <= U32MAX, "empty-key": False}
 
         def on_end(s, how):
             where = "end of Entries::insert"
@@ -232,6 +232,9 @@ def h_entries_insert(ctx, lmax=2 ** 60, kmax=2 ** 33):
             m.oblige(s, z3.And(z3.BoolVal(sl.alloc == aid), sl.off == bv(0), idx == B), "post:bound-slot", where)
             ks, kl, dl = val.fields
             m.oblige(s, z3.And(ks == E2, z3.ZeroExt(32, kl) == k, z3.ZeroExt(32, dl) == d), "post:bound-value", where)
+            # per-bound invariant PB consumed by the read paths (read_paths harness): klen + dlen <= key_start <= entries_len;
+            # it is monotone in entries_len, so bounds stored earlier keep it
+            m.oblige(s, z3.And(z3.ULE(z3.ZeroExt(32, kl) + z3.ZeroExt(32, dl), ks), z3.ULE(ks, E2), z3.UGE(E2, E)), "post:stored-bound-satisfies-PB", where)
             w = s.ghost["writes"]
             (d1, s1), (d2, s2) = w[-2], w[-1]
             m.oblige(s, z3.And(z3.BoolVal(d1.alloc == aid and s1.alloc == "K"), d1.off == L2 - E2, d1.len == k,
@@ -645,3 +648,86 @@ def h_spill_contracts(ctx, tmax=2 ** 36):
         finish(res, total["m"], covers)
         return total["m"]
     return run_harness("sorter_spill_contracts", body)
+
+
+# ------------------------------------------------------------------------------------------------ read paths
+def h_read_paths(ctx, lmax=2 ** 60):
+    """Entries::iter / sort_by_key and their closures: the slices handed out for ANY stored bound satisfying the per-bound
+    invariant PB (established by entries_insert_step) lie inside the byte region of the live buffer"""
+    def body(res):
+        L, E, B, ks, alg = [z3.BitVec(n, 64) for n in "L E B ks alg".split()]
+        kl, dl = z3.BitVec("kl", 32), z3.BitVec("dl", 32)
+        covers = {"iter": False, "iter-closure": False, "sort": False, "sort-closure": False, "empty-key": False}
+        cl_iter = [f for f in ctx.fns if f.name.startswith("sorter::") and f.name.endswith("::iter::{closure#0}")]
+        cl_sort = [f for f in ctx.fns if f.name.startswith("sorter::") and f.name.endswith("::sort_by_key::{closure#0}")]
+        if len(cl_iter) != 1 or len(cl_sort) != 1:
+            raise Unsupported("closures of Entries::iter / sort_by_key not found in the MIR")
+
+        def check_split(mach, s, bounds, tail, where):
+            mach.oblige(s, z3.And(z3.BoolVal(isinstance(bounds, Slice) and bounds.alloc == "A0" and bounds.esz == ctx.ES),
+                                  bounds.off == bv(0), bounds.len == B), "read:bound-table-is-the-first-B-slots", where)
+            mach.oblige(s, z3.And(z3.BoolVal(isinstance(tail, Slice) and tail.alloc == "A0"), tail.off == bv(ctx.ES) * B,
+                                  tail.len == L - bv(ctx.ES) * B), "read:tail-is-the-rest-of-the-buffer", where)
+
+        def run_closure(mach, s, cfn, cl, phase):
+            s2 = s.fork()
+            s2.frames = []
+            s2.heap[("O", "cl")] = cl
+            s2.heap[("O", "bound")] = Struct("EntryBound", [ks, kl, dl], ctx.bound_fields)
+            s2.ghost["phase"] = phase
+            mach.run(s2, cfn, [Ref(("O", "cl"), ()), Ref(("O", "bound"), ())])
+
+        def slice_iter(mach, s, args, callee):
+            return [(s, args[0])]
+
+        def map_hook(mach, s, args, callee):
+            sl, cl = args
+            check_split(mach, s, sl, cl.fields[0], "Entries::iter")
+            run_closure(mach, s, cl_iter[0], cl, "iter")
+            return [(s, Opaque("Map iterator"))]
+
+        def fnptr(mach, s, args, callee):
+            sl, cl = args
+            tail = cl.fields[0]
+            tail = mach.read_loc(s, tail.key, tail.path) if isinstance(tail, Ref) else tail
+            check_split(mach, s, sl, tail, "Entries::sort_by_key")
+            run_closure(mach, s, cl_sort[0], cl, "sort")
+            return [(s, Struct("()", []))]
+        m = ctx.machine(hooks={r"slice::<impl \[(sorter::)?EntryBound\]>::iter$": slice_iter, r"as Iterator>::map::<": map_hook, r"^move _\d+$": fnptr})
+
+        def inside(mach, s, sl, off, ln, what, where):
+            mach.oblige(s, z3.And(z3.BoolVal(isinstance(sl, Slice) and sl.alloc == "A0"), sl.off == off, sl.len == ln), "read:%s-is-the-stored-range" % what, where)
+            mach.oblige(s, z3.And(z3.UGE(sl.off, L - E), z3.ULE(sl.off, L), z3.ULE(sl.len, L - sl.off)), "read:%s-inside-byte-region" % what, where)
+
+        def on_end(s, how):
+            ph = s.ghost.get("phase")
+            if how == "panic":
+                ev = s.ghost["events"][-1]
+                m.oblige(s, z3.BoolVal(False), "unexpected-panic:" + ev[2][:50], ev[1])
+                return
+            K, D = z3.ZeroExt(32, kl), z3.ZeroExt(32, dl)
+            if ph == "iter":
+                key, data = s.ghost["ret"].fields
+                inside(m, s, key, L - ks, K, "key", "iter closure")
+                inside(m, s, data, L - ks + K, D, "value", "iter closure")
+                covers["iter-closure"] = True
+                if m.feasible(s, kl == z3.BitVecVal(0, 32)):
+                    covers["empty-key"] = True
+            elif ph == "sort":
+                inside(m, s, s.ghost["ret"], L - ks, K, "key", "sort closure")
+                covers["sort-closure"] = True
+            else:
+                covers[s.ghost["top"]] = True
+        m.on_end = on_end
+        for top, fn, extra in (("iter", ctx.fn("Entries", "iter"), []), ("sort", ctx.fn("Entries", "sort_by_key"), None)):
+            st = State()
+            st.pc += ri(L, E, B, ctx.ES, lmax) + [z3.UGE(B, bv(1)), z3.ULE(z3.ZeroExt(32, kl) + z3.ZeroExt(32, dl), ks), z3.ULE(ks, E),
+                                                z3.ULE(alg, bv(1))] + pins(ctx)
+            key = entries_state(st, L, E, B, ctx)
+            st.ghost["top"] = top
+            args = [Ref(key, ())] + ([] if extra is not None else [Enum(alg, {})])
+            m.run(st, fn, args)
+        res["bounds"] = "L <= 2^%d; one arbitrary stored bound with klen + dlen <= key_start <= entries_len (PB); both sort algorithms" % (lmax.bit_length() - 1)
+        finish(res, m, covers)
+        return m
+    return run_harness("entries_read_paths", body)
